@@ -233,3 +233,18 @@ Proof.
   exists s. eexists. split; [reflexivity|]. split; [eapply lrun_reachable; [apply lreach_init|exact E]|].
   vm_compute in E. inversion E; subst. vm_compute. repeat split. left. reflexivity.
 Qed.
+
+(* End while somebody else's Close of peer 0 is inside its teardown: End returns without waiting for it (peer 0 is
+   purged by Count()), peer 1 is closed and torn down by End itself *)
+Definition trace_end_life : list llabel :=
+  map LL_P (collect_ok ++ collect_ok) ++ [LL_CloseBegin 0] ++
+  map LL_P [End_call; End_once 0; End_melt 0; End_lock 0; End_closechan 0; End_closepeers 0; End_unlock 0; End_finish 0].
+
+Lemma end_life_example : exists s, lrun V1 FlagFirst (linit 2) trace_end_life = Some s /\ lreachable V1 FlagFirst 2 s /\
+  nth_error (ends (lp s)) 0 = Some E_Done /\ next_peer (lp s) = 2 /\
+  begun s 0 = true /\ torn s 0 = false /\ begun s 1 = true /\ torn s 1 = true.
+Proof.
+  destruct (lrun V1 FlagFirst (linit 2) trace_end_life) as [s|] eqn:E; [|vm_compute in E; discriminate].
+  exists s. split; [reflexivity|]. split; [eapply lrun_reachable; [apply lreach_init|exact E]|].
+  vm_compute in E. inversion E; subst. vm_compute. repeat split.
+Qed.
